@@ -38,20 +38,40 @@ func errValueOf(call ssa.CallInstruction) (val ssa.Value, hasErr bool) {
 		return nil, true // defer / go: discarded
 	}
 	if sig.Results().Len() == 1 {
-		if cv.Referrers() == nil || len(*cv.Referrers()) == 0 {
+		if effectivelyUnused(cv) {
 			return nil, true
 		}
 		return cv, true
 	}
 	for _, ref := range *cv.Referrers() {
 		if ex, ok := ref.(*ssa.Extract); ok && ex.Index == idx {
-			if ex.Referrers() == nil || len(*ex.Referrers()) == 0 {
+			if effectivelyUnused(ex) {
 				return nil, true
 			}
 			return ex, true
 		}
 	}
 	return nil, true
+}
+
+// effectivelyUnused: the value has no use, or only comparisons whose result is
+// itself unused (an `if err != nil { continue }` whose branches coincide is
+// compiled to a dead comparison).
+func effectivelyUnused(v ssa.Value) bool {
+	refs := v.Referrers()
+	if refs == nil || len(*refs) == 0 {
+		return true
+	}
+	for _, ref := range *refs {
+		bo, ok := ref.(*ssa.BinOp)
+		if !ok {
+			return false
+		}
+		if bo.Referrers() != nil && len(*bo.Referrers()) > 0 {
+			return false
+		}
+	}
+	return true
 }
 
 // c06Scope: packaging call graph of all packagers + CLI + signing + parsing.
